@@ -31,12 +31,12 @@ def smp (s : OSample) : Line := .sample (.ok none) (.ok s)
 counter `_total _created`, summary `"" _count _sum _created`, histogram `_count _sum _bucket _created`,
 gaugehistogram `_gcount _gsum _bucket`, info `_info`, every other type the bare name -/
 def specSuffixes (t : Str) : List Str :=
-  if t = "counter".toList then ["_total".toList, "_created".toList]
-  else if t = "summary".toList then ["".toList, "_count".toList, "_sum".toList, "_created".toList]
-  else if t = "histogram".toList then ["_count".toList, "_sum".toList, "_bucket".toList, "_created".toList]
-  else if t = "gaugehistogram".toList then ["_gcount".toList, "_gsum".toList, "_bucket".toList]
-  else if t = "info".toList then ["_info".toList]
-  else ["".toList]
+  if t = cs!"counter" then [cs!"_total", cs!"_created"]
+  else if t = cs!"summary" then [cs!"", cs!"_count", cs!"_sum", cs!"_created"]
+  else if t = cs!"histogram" then [cs!"_count", cs!"_sum", cs!"_bucket", cs!"_created"]
+  else if t = cs!"gaugehistogram" then [cs!"_gcount", cs!"_gsum", cs!"_bucket"]
+  else if t = cs!"info" then [cs!"_info"]
+  else [cs!""]
 
 def familyNames (n t : Str) : List Str := (specSuffixes t).map (n ++ ·)
 
@@ -48,7 +48,7 @@ def InFam (n t : Str) : Line → Prop
 
 /-- `ls` = anything, `# TYPE n t`, lines of that family, the lines `bad`, anything -/
 def InBlock (ls : List Line) (n t : Str) (bad : List Line) : Prop :=
-  ∃ pre mid post, ls = pre ++ .metadata "TYPE".toList n t :: (mid ++ bad ++ post) ∧ ∀ l ∈ mid, InFam n t l
+  ∃ pre mid post, ls = pre ++ .metadata cs!"TYPE" n t :: (mid ++ bad ++ post) ∧ ∀ l ∈ mid, InFam n t l
 
 /-! ## end of input, blank lines -/
 
@@ -64,24 +64,24 @@ def BlankLine (ls : List Line) : Prop := Line.blank ∈ ls
 
 /-- an info sample whose value is not 1 -/
 def InfoNotOne (P : Params) (ls : List Line) : Prop :=
-  ∃ n s v, InBlock ls n "info".toList [smp s] ∧ s.name = n ++ "_info".toList ∧ s.value = some v ∧ P.eq v (.int 1) = false
+  ∃ n s v, InBlock ls n cs!"info" [smp s] ∧ s.name = n ++ cs!"_info" ∧ s.value = some v ∧ P.eq v (.int 1) = false
 
 /-- a stateset sample whose value is neither 0 nor 1 -/
 def StatesetBadValue (P : Params) (ls : List Line) : Prop :=
-  ∃ n s v, InBlock ls n "stateset".toList [smp s] ∧ s.name = n ∧ s.value = some v ∧
+  ∃ n s v, InBlock ls n cs!"stateset" [smp s] ∧ s.name = n ∧ s.value = some v ∧
     P.eq v (.int 0) = false ∧ P.eq v (.int 1) = false
 
 /-- a stateset sample without the label named after the family -/
 def StatesetNoLabel (ls : List Line) : Prop :=
-  ∃ n s lbls, InBlock ls n "stateset".toList [smp s] ∧ s.name = n ∧ s.labels = some lbls ∧ (∀ kv ∈ lbls, kv.1 ≠ n)
+  ∃ n s lbls, InBlock ls n cs!"stateset" [smp s] ∧ s.name = n ∧ s.labels = some lbls ∧ (∀ kv ∈ lbls, kv.1 ≠ n)
 
 /-- the suffixes of counter-like samples -/
 def counterLike : List Str :=
-  ["_total".toList, "_sum".toList, "_count".toList, "_bucket".toList, "_gcount".toList, "_gsum".toList]
+  [cs!"_total", cs!"_sum", cs!"_count", cs!"_bucket", cs!"_gcount", cs!"_gsum"]
 
 /-- counter-like samples that may not be negative: all of them but `_gsum` (a gauge histogram may sum below zero) -/
 def counterLikeNonNeg : List Str :=
-  ["_total".toList, "_sum".toList, "_count".toList, "_bucket".toList, "_gcount".toList]
+  [cs!"_total", cs!"_sum", cs!"_count", cs!"_bucket", cs!"_gcount"]
 
 /-- a counter-like sample of a family whose value is NaN -/
 def CounterLikeNaN (P : Params) (ls : List Line) : Prop :=
@@ -95,8 +95,8 @@ def CounterLikeNegative (P : Params) (ls : List Line) : Prop :=
 
 /-- a summary quantile sample whose `quantile` label is missing, is not a number, or lies outside [0, 1] -/
 def QuantileOutOfRange (P : Params) (ls : List Line) : Prop :=
-  ∃ n s lbls, InBlock ls n "summary".toList [smp s] ∧ s.name = n ∧ s.labels = some lbls ∧
-    (match dictGet lbls "quantile".toList with
+  ∃ n s lbls, InBlock ls n cs!"summary" [smp s] ∧ s.name = n ∧ s.labels = some lbls ∧
+    (match dictGet lbls cs!"quantile" with
      | none => True
      | some q => match P.pyFloat q with
        | none => True
@@ -105,13 +105,13 @@ def QuantileOutOfRange (P : Params) (ls : List Line) : Prop :=
 /-- bucket and count values of histograms, gauge histograms and summaries that are not integral -/
 def CountNotIntegral (P : Params) (ls : List Line) : Prop :=
   ∃ n t s suf b, InBlock ls n t [smp s] ∧ s.name = n ++ suf ∧
-    suf ∈ ["_bucket".toList, "_count".toList, "_gcount".toList] ∧ s.name ∈ familyNames n t ∧
+    suf ∈ [cs!"_bucket", cs!"_count", cs!"_gcount"] ∧ s.name ∈ familyNames n t ∧
     s.value = some (.flt b) ∧ P.isInteger b = false
 
 /-- samples that may carry an exemplar: buckets of histograms and gauge histograms, `_total` of counters -/
 def exemplarEligible (t name : Str) : Prop :=
-  ((t = "histogram".toList ∨ t = "gaugehistogram".toList) ∧ endsWith "_bucket".toList name = true)
-  ∨ (t = "counter".toList ∧ endsWith "_total".toList name = true)
+  ((t = cs!"histogram" ∨ t = cs!"gaugehistogram") ∧ endsWith cs!"_bucket" name = true)
+  ∨ (t = cs!"counter" ∧ endsWith cs!"_total" name = true)
 
 /-- an exemplar on a sample that may not carry one -/
 def ExemplarIneligible (ls : List Line) : Prop :=
@@ -123,10 +123,10 @@ def ExemplarIneligible (ls : List Line) : Prop :=
 (`quantile` on a summary's quantile samples, `le` on buckets, the state label of a stateset) -/
 def groupLabels (n t : Str) (s : OSample) : Labels :=
   let ls := s.labels.getD []
-  if t = "summary".toList ∧ s.name = n then ls.filter (fun kv => kv.1 != "quantile".toList)
-  else if t = "stateset".toList then ls.filter (fun kv => kv.1 != n)
-  else if (t = "histogram".toList ∨ t = "gaugehistogram".toList) ∧ s.name = n ++ "_bucket".toList then
-    ls.filter (fun kv => kv.1 != "le".toList)
+  if t = cs!"summary" ∧ s.name = n then ls.filter (fun kv => kv.1 != cs!"quantile")
+  else if t = cs!"stateset" then ls.filter (fun kv => kv.1 != n)
+  else if (t = cs!"histogram" ∨ t = cs!"gaugehistogram") ∧ s.name = n ++ cs!"_bucket" then
+    ls.filter (fun kv => kv.1 != cs!"le")
   else ls
 
 /-- same group: the same label set, in any order -/
@@ -139,19 +139,19 @@ def stampLt (a b : Int × Int) : Prop := a.1 < b.1 ∨ (a.1 = b.1 ∧ a.2 < b.2)
 /-- two consecutive samples of one group (of a family that is not an info family), the second with an earlier
 timestamp; timestamps of the `Timestamp` form, or both of the float form -/
 def TimestampBackwards (P : Params) (ls : List Line) : Prop :=
-  ∃ n t s1 s2, InBlock ls n t [smp s1, smp s2] ∧ t ≠ "info".toList ∧
+  ∃ n t s1 s2, InBlock ls n t [smp s1, smp s2] ∧ t ≠ cs!"info" ∧
     s1.name ∈ familyNames n t ∧ s2.name ∈ familyNames n t ∧ SameGroup n t s1 s2 ∧
     ((∃ a1 b1 a2 b2, s1.ts = some (.stamp a1 b1) ∧ s2.ts = some (.stamp a2 b2) ∧ stampLt (a2, b2) (a1, b1))
      ∨ (∃ f1 f2, s1.ts = some (.flt f1) ∧ s2.ts = some (.flt f2) ∧ P.lt (.flt f2) (.flt f1) = true))
 
 /-- two consecutive samples of one group, exactly one of them with a timestamp -/
 def TimestampPartial (ls : List Line) : Prop :=
-  ∃ n t s1 s2, InBlock ls n t [smp s1, smp s2] ∧ t ≠ "info".toList ∧
+  ∃ n t s1 s2, InBlock ls n t [smp s1, smp s2] ∧ t ≠ cs!"info" ∧
     s1.name ∈ familyNames n t ∧ s2.name ∈ familyNames n t ∧ SameGroup n t s1 s2 ∧ s1.ts.isSome ≠ s2.ts.isSome
 
 /-! ## metadata and family structure -/
 
-def metaKinds : List Str := ["HELP".toList, "TYPE".toList, "UNIT".toList]
+def metaKinds : List Str := [cs!"HELP", cs!"TYPE", cs!"UNIT"]
 
 /-- two metadata lines of the same kind for the same family, anywhere in the document -/
 def RepeatedMetadata (ls : List Line) : Prop :=
@@ -170,17 +170,18 @@ def InterleavedFamilies (ls : List Line) : Prop :=
 
 /-- two families whose sample-name sets (name plus the suffixes of the declared type) overlap -/
 def ClashingFamilies (ls : List Line) : Prop :=
-  ∃ pre n1 t1 mid n2 t2 post, ls = pre ++ .metadata "TYPE".toList n1 t1 :: (mid ++ .metadata "TYPE".toList n2 t2 :: post) ∧
+  ∃ pre n1 t1 mid n2 t2 post, ls = pre ++ .metadata cs!"TYPE" n1 t1 :: (mid ++ .metadata cs!"TYPE" n2 t2 :: post) ∧
     n1 ≠ n2 ∧ ∃ x, (x ∈ familyNames n1 t1 ∨ x = n1) ∧ (x ∈ familyNames n2 t2 ∨ x = n2)
 
 /-- a (non-empty) unit the family name does not end with `_unit` -/
 def UnitNotSuffix (ls : List Line) : Prop :=
-  ∃ pre n u post, ls = pre ++ .metadata "UNIT".toList n u :: post ∧ u ≠ [] ∧ endsWith ('_' :: u) n = false
+  ∃ pre n u post, ls = pre ++ .metadata cs!"UNIT" n u :: post ∧ u ≠ [] ∧ endsWith ('_' :: u) n = false
 
-/-- a (non-empty) unit on an info or stateset family -/
+/-- a (non-empty) unit on an info or stateset family: a `# UNIT` and a `# TYPE … info|stateset` line for one name, in
+either order, whatever lies between -/
 def UnitOnInfoOrStateset (ls : List Line) : Prop :=
-  ∃ pre n u t mid post, u ≠ [] ∧ (t = "info".toList ∨ t = "stateset".toList) ∧ (∀ l ∈ mid, InFam n t l) ∧
-    (ls = pre ++ .metadata "UNIT".toList n u :: (mid ++ .metadata "TYPE".toList n t :: post)
-     ∨ ls = pre ++ .metadata "TYPE".toList n t :: (mid ++ .metadata "UNIT".toList n u :: post))
+  ∃ pre n u t mid post, u ≠ [] ∧ (t = cs!"info" ∨ t = cs!"stateset") ∧
+    (ls = pre ++ .metadata cs!"UNIT" n u :: (mid ++ .metadata cs!"TYPE" n t :: post)
+     ∨ ls = pre ++ .metadata cs!"TYPE" n t :: (mid ++ .metadata cs!"UNIT" n u :: post))
 
 end PromVerif.Spec.OMRules
